@@ -13,11 +13,7 @@ impl<'a> RecoveryScanner<'a> {
     }
 }
 
-// post-scan pass over the rebuilt index (unit expired_winners verifies it): appends the extents of expired winners
-impl FeoxStore {
-    #[verifier::external_body]
-    pub fn remove_expired_recovery_winners(&self, now: u64, format: &FormatAny, retired_extents: &mut Vec<(u64, usize)>) -> Result<()> { unimplemented!() }
-}
+// (the post-scan pass remove_expired_recovery_winners is a `sigshim` item of the unit: an opaque callee whose signature is read from the source; unit expired_winners verifies it)
 
 // ---- read-only opens mask the journaled extents instead of replaying them (C15 / C04) ----
 pub open spec fn sorted_by_start(j: Seq<(u64, usize)>) -> bool {
